@@ -41,6 +41,8 @@ class Capture:
             rec['rule'] = np.array(np.atleast_1d(slf.rule(step_ratio)), copy=True)
             rec['n'] = slf.n
             rec['hn'] = np.array(h, copy=True) ** slf.n
+            rec['apply_ratio'] = step_ratio
+            rec['rule_obj'] = slf
             return o_apply(slf, f_del, h, step_ratio)
 
         def rrule(slf, sequence_length=None):
@@ -117,3 +119,41 @@ def extrapolate_cases(val, info, rec):
     rr = rec['rr'][-1]
     return ['(%s, %s, %s, (%s, %s, %s, %d%%nat))' % (flist(der[:, c]), flist(hs[:, c]), flist(rr), flit(v[c]), flit(e[c]), flit(s[c]), int(ix[c]) // ncols)
             for c in range(ncols)], None
+
+
+def context_certificate(rec):
+    """The recorded oracles of one call, certified IN THE CONTEXT of that call: the finite-difference rule that _apply used must be the rule
+    of the object's (method, n, order) for the step ratio of the steps it is applied to.  Returns None or a description of what is wrong.
+    (The rule row itself is certified against the exact inverse of the moment matrix by C06; here the question is whether the RIGHT rule
+    reaches the data: a stale or pre-filled cache entry, a ratio that is not passed on, a rule built for another configuration.)"""
+    if 'rule' not in rec or 'h' not in rec or 'rule_obj' not in rec:
+        return None
+    h = np.asarray(rec['h'])
+    if np.iscomplexobj(h) or h.ndim != 2 or h.shape[0] < 2 or not np.isfinite(h).all() or np.any(h[1:] == 0):
+        return None
+    ratios = h[:-1] / h[1:]
+    r_obs = float(np.median(ratios))
+    if not np.all(np.abs(ratios - r_obs) <= 1e-9 * abs(r_obs)) or not r_obs > 1:
+        return None                  # not a geometric sequence (user-defined steps): nothing to certify
+    try:
+        r_apply = float(rec['apply_ratio'])
+    except Exception:   # noqa
+        return 'the step ratio handed to LogRule._apply is %r' % (rec.get('apply_ratio'),)
+    if abs(r_apply - r_obs) > 1e-9 * r_obs:
+        return 'the steps decrease by the ratio %r but the rule was asked for the ratio %r' % (r_obs, r_apply)
+    from numdifftools import finite_difference as fdm
+    obj = rec['rule_obj']
+    saved = dict(fdm.FD_RULES)
+    try:
+        fdm.FD_RULES.clear()
+        fresh = np.atleast_1d(type(obj)(n=obj.n, method=obj.method, order=obj.order).rule(r_apply))
+    except Exception:   # noqa
+        return None
+    finally:
+        fdm.FD_RULES.clear()
+        fdm.FD_RULES.update(saved)
+    used = np.atleast_1d(rec['rule'])
+    if used.shape != fresh.shape or not np.allclose(used, fresh, rtol=1e-12, atol=1e-12 * float(np.max(np.abs(fresh)))):
+        return 'the rule applied %r is not the rule of (%s, n=%d, order=%d) for the ratio %r computed afresh with an empty cache: %r' % (
+            used.tolist(), obj.method, obj.n, obj.order, r_apply, fresh.tolist())
+    return None
